@@ -20,11 +20,18 @@ type c07World struct {
 	intMem   map[string]bool
 	thorough bool
 	c        *ev.Ctx
+	steps    int
+	fam      string // roots "mode:@family": one key family's key + expired / current / future certificates, small alphabet
 }
 
 func newC07World(c *ev.Ctx, root string) bfs.World {
 	noUp, init := parseRoot(root)
-	x := &c07World{w: newShimWorld(noUp, init, nil), intUA: map[string]bool{}, intMem: map[string]bool{}, thorough: c.Thorough(), c: c}
+	fam := ""
+	if len(init) == 1 && strings.HasPrefix(init[0], "@") {
+		fam = init[0][1:]
+		init = []string{"a." + fam + ".past", "a." + fam + ".key", "a." + fam + ".cur", "a." + fam + ".future"}
+	}
+	x := &c07World{fam: fam, w: newShimWorld(noUp, init, nil), intUA: map[string]bool{}, intMem: map[string]bool{}, thorough: c.Thorough(), c: c}
 	for _, n := range init {
 		x.intUA[n] = true
 	}
@@ -57,6 +64,21 @@ func (x *c07World) Enabled() []bfs.Op {
 		}
 	}
 	ops = append(ops, bfs.Op{Name: "List"}, bfs.Op{Name: "Signers"})
+	if x.fam != "" {
+		if x.steps >= 5 {
+			return ops[:0] // the family roots are explored to depth 5 at most (BFS reaches a state first by a shortest history)
+		}
+		a := "a." + x.fam
+		o("Sign", a+".past", a+".cur", a+".future", a+".key")
+		if idents[a+".key"].signer == nil {
+			o("Add", a+".past") // (a security key cannot travel in an add request)
+		}
+		o("URemove", a+".key")
+		if x.w.ticksH < 1 {
+			ops = append(ops, bfs.Op{Name: "Tick1h"})
+		}
+		return ops
+	}
 	o("Add", "K1", "c.past", "c.cur", "c.lapsing", "c.forever", "c.future", "c.zero", "c.edge", "c.vb63", "c.va63", "K2", "c2.past", "c.inverted")
 	// a YSSHCA-issued certificate that lapses during the history: in no-upstream mode it is hidden from listings (C09's
 	// subject) but "purged from both" still applies to it
@@ -87,6 +109,7 @@ func (x *c07World) Enabled() []bfs.Op {
 func (x *c07World) Apply(op bfs.Op) (fs []bfs.Finding) {
 	add := func(key, desc string) { fs = append(fs, bfs.Finding{Key: "C07:" + key, Desc: desc}) }
 	w := x.w
+	x.steps++
 	uaLocked := w.ua.Ring.Locked
 	var reported []*ident // what the underlying agent reports to a list request issued now
 	if !uaLocked {
@@ -365,12 +388,19 @@ func why(n string, now interface{ Unix() int64 }) string {
 
 func checkC07(c *ev.Ctx) {
 	setupFixtures()
-	c.Rule("E1 BFS over histories of the real shimagent.Server with a virtual clock: Add(13 identities incl. past/current/future/lapsing/edge/zero/forever/2^63/inverted windows), AddHardCert(5), Remove(5), RemoveAll, List, Signers, Sign(8), direct removals and lock/unlock on the underlying agent, clock ticks (+1min x2, +1h x1); roots = both upstream modes x 6 initial contents (incl. two where, once a key is removed, everything the underlying agent reports is out of window); oracle against the intended contents. non-trivial = listing/signing transition that purged or orphan-dropped something; distinct by (operation, intended sets, clock)")
+	c.Rule("E1 BFS over histories of the real shimagent.Server with a virtual clock: Add(13 identities incl. past/current/future/lapsing/edge/zero/forever/2^63/inverted windows), AddHardCert(5), Remove(5), RemoveAll, List, Signers, Sign(8), direct removals and lock/unlock on the underlying agent, clock ticks (+1min x2, +1h x1); roots = both upstream modes x 6 initial contents (incl. two where, once a key is removed, everything the underlying agent reports is out of window); plus both modes x 6 key families {DSA, sk-ed25519 security key, RSA, P-384, P-521, Ed25519; P-256 is K2 of the main roots} each with its key and an expired / current / not-yet-valid certificate in the underlying agent (alphabet List, Signers, Sign x4, Add expired, direct key removal, +1h); oracle against the intended contents. non-trivial = listing/signing transition that purged or orphan-dropped something; distinct by (operation, intended sets, clock)")
 	c.Assume("certificate validity reference: va <= now <= vb after clamping to 2^63-1", "mem certificates whose key is held only inside an out-of-window certificate are don't-care for one listing (either outcome accepted)")
 	var roots []string
 	for _, mode := range []string{"up", "noup"} {
 		for _, init := range []string{"", "K1,c.cur,c.past", "K1,K2,c.lapsing,c2.past", "c.past,K1,c.zero,c.cur,c2.past,K2,c.va63", "K2,c.past", "K1,c2.lapsing"} {
 			roots = append(roots, mode+":"+init)
+		}
+	}
+	// every key family (certificate algorithm names differ): key + expired / current / future certificate in the
+	// underlying agent from the start
+	for _, mode := range []string{"up", "noup"} {
+		for _, fam := range []string{"dsa", "sk", "rsa", "p384", "p521", "ed25519"} {
+			roots = append(roots, mode+":@"+fam)
 		}
 	}
 	depth := 4
